@@ -375,6 +375,9 @@ def evaluate(key, cls, b, offsets=OFFSETS_QUICK, want_record=False):
     if b1 is not None and len(b1) < n and not any(l in ('reparse-raises', 'repack-raises', 'repack-bytes-differ', 'reparse-consumed-differs') for l, _, _ in V):
         V[:] = [(l, 'input-not-canonical:serialisation-shorter-and-stable' if l in ('size-pack-vs-consumed', 'calcsize-differs') and d == '' and
                  (l != 'calcsize-differs' or rec.get('calcsize') == len(b1)) else d, t) for l, d, t in V]
+        # an attribute that merely mirrors a wire length field follows the shorter serialisation
+        V[:] = [(l, 'input-not-canonical:length-attribute' if l == 'reparse-values-differ' and (d.endswith('_length') or d.endswith('_length_bytes') or d.endswith('_len_bytes')) else d, t)
+                for l, d, t in V]
     # classify timestamp-caused failures by the parsed value alone: (a) decoded seconds reach the sentinel
     # 2^32-1 (cannot be written back), (b) the decoded double is not the image of any normalised stamp (the wire
     # nanosecond field was >= 10^9), so re-decoding its normalised re-encoding may differ in the last bit
@@ -678,6 +681,19 @@ def gen_inputs_desc(cls, desc, rng, tier, budget, greedy):
         bb[o:o + w] = int(v).to_bytes(w, 'little')
         c = complete(cls, bytes(bb), rng, greedy)
         out.append(c if c is not None else bytes(bb))
+    # 8/16-bit integer fields that go through binary64 scale arithmetic: sweep the wire values (all 256; for 16 bits
+    # a spread of 160 in the quick tier, all 65536 in the thorough tier) - these are extra to the budget
+    for o, it in plan:
+        if it['t'] == 'field' and it.get('conv', [''])[0] == 'scaled' and KS[it['kind']] <= 2:
+            w = KS[it['kind']]
+            if w == 1 or thorough:
+                vals = range(1 << (8 * w))
+            else:
+                vals = sorted(set(list(range(0, 65536, 683)) + [rng.randrange(65536) for _ in range(64)]))
+            for v in vals:
+                bb = bytearray(base)
+                bb[o:o + w] = int(v).to_bytes(w, 'little')
+                out.append(bytes(bb))
     for (co, cw, eo, ew, v, esz) in elem:
         k = rng.choice([1, 2, 3])
         bb = bytearray(base)
@@ -802,6 +818,31 @@ def main():
             except Exception as e:
                 import traceback
                 print(json.dumps({'key': key, 'harness_error': traceback.format_exc()[-1500:]}), flush=True)
+    elif cmd == 'ts':
+        # timestamp cases: [[sec, ns], ...] on stdin -> [[dec_bits|-1, enc_sec|-1, enc_ns|-1, adapter_agrees], ...]
+        from fusion_engine_client.messages.timestamp import TimestampConstruct
+        out = []
+        for sec, ns in json.load(sys.stdin):
+            raw = struct.pack('<II', sec, ns)
+            t = Timestamp(); t.unpack(raw, 0)
+            bits = -1 if t.seconds != t.seconds else struct.unpack('<Q', struct.pack('<d', t.seconds))[0]
+            try:
+                b = t.pack(return_buffer=True)
+                es, en = struct.unpack('<II', bytes(b))
+            except Exception:
+                es, en = -1, -1
+            try:
+                t2 = TimestampConstruct.parse(raw)
+                same = (t2.seconds != t2.seconds and bits == -1) or (t2.seconds == t2.seconds and struct.unpack('<Q', struct.pack('<d', t2.seconds))[0] == bits)
+                try:
+                    b2 = TimestampConstruct.build(t2)
+                    same = same and struct.unpack('<II', b2) == (es, en)
+                except Exception:
+                    same = same and es == -1
+            except Exception:
+                same = False
+            out.append([bits, es, en, bool(same)])
+        print(json.dumps(out))
     elif cmd == 'one':
         key, hx = sys.argv[2], sys.argv[3]
         cls, _ = class_table()[key]
